@@ -360,9 +360,13 @@ func setProcs(n int) func() {
 // overflowBurst queues more notifications than the kernel queue holds in the
 // watched directory dir (nobody has to be receiving): an error is then pending
 // behind the queued events.
-func overflowBurst(dir string, extra int) {
-	n := engine.MaxQueuedEvents() + extra
-	a, b := dir+"/ovf-a", dir+"/ovf-b"
+func overflowBurst(w *fsnotify.Watcher, extra int) {
+	// a directory of its own, so that nothing else in the case can end its watch
+	dir := "ovf"
+	syscall.Mkdir(dir, 0o755)
+	w.Add(dir)
+	n := engine.MaxQueuedEvents() + cap(w.Events) + 64 + extra
+	a, b := dir+"/a", dir+"/b"
 	for _, p := range []string{a, b} {
 		if fd, err := syscall.Open(p, syscall.O_CREAT|syscall.O_WRONLY|syscall.O_CLOEXEC, 0o644); err == nil {
 			syscall.Close(fd)
@@ -381,23 +385,14 @@ func overflowBurst(dir string, extra int) {
 // genOverflow decides whether a case leaves a kernel queue overflow (and so an
 // error) pending; such cases cost ~0.4 s, so they are drawn rarely.
 func genOverflow(t *rapid.T, c *LCase) {
-	pct := 2
+	pct := 3
 	if os.Getenv("VERIF_TIER") == "thorough" {
-		pct = 8
+		pct = 6
 	}
-	if rapid.IntRange(0, 99).Draw(t, "overflow") >= pct {
+	if !engine.Pct(t, "overflow", pct) {
 		return
 	}
 	c.Overflow = rapid.IntRange(1, 3000).Draw(t, "overflow-extra")
-	has := false
-	for _, a := range c.Adds {
-		if a == "d0" {
-			has = true
-		}
-	}
-	if !has {
-		c.Adds = append(c.Adds, "d0")
-	}
 	// let the reader reach the overflow marker: somebody takes the events,
 	// mostly nobody takes the error
 	c.Consumer = rapid.SampledFrom([]string{"events", "events", "events", "both", "none"}).Draw(t, "ovf-consumer")
@@ -408,10 +403,17 @@ func genOverflow(t *rapid.T, c *LCase) {
 func waitParkedInSendError() {
 	deadline := time.Now().Add(5 * time.Second)
 	for time.Now().Before(deadline) {
+		idle := false
 		for _, g := range engine.FsnotifyGoroutines() {
 			if strings.Contains(g, "sendError") {
 				return
 			}
+			if strings.Contains(g, "readEvents") && strings.Contains(g, "IO wait") {
+				idle = true // everything consumed: no error is coming
+			}
+		}
+		if idle {
+			return
 		}
 		time.Sleep(2 * time.Millisecond)
 	}
